@@ -580,6 +580,25 @@ pub fn all() -> Vec<Scenario> {
             Err(_) => Scenario { id, properties: &[], what: "", honest: "panic while constructing the scenario".into(), forged: None, accepted: false, detail: json!({}) },
         });
     }
+    // the Poseidon1 twin: capacity between two permutations, and the initial capacity of the first permutation (row 0 of the table)
+    for (wname, wh) in [("between", crate::capchain1::Where::Between), ("initial", crate::capchain1::Where::Initial)] {
+        for slot in crate::capchain1::SLOTS {
+            let id: &'static str = Box::leak(format!("challenger-capacity-poseidon1-base-{wname}:slot={slot}").into_boxed_str());
+            let r = catch_unwind(AssertUnwindSafe(|| crate::capchain1::run_slot(wh, slot)));
+            per_bit.push(match r {
+                Ok((honest_ok, accepted, differs, herr)) => Scenario {
+                    id,
+                    properties: &["C06"],
+                    what: "KoalaBear D1 W16 POSEIDON1 challenger in a quintic circuit: observe 8, sample c1, observe 8, sample c2; the permutation executor alters ONE capacity element - of the first permutation's output (between) or of its input, i.e. the initial capacity of the transcript, the table row showing the input actually permuted (initial) - and computes everything downstream honestly; the claimed challenges then differ from the native ones",
+                    honest: if honest_ok { "accepted".into() } else { format!("honest transcript refused: {herr}") },
+                    forged: Some(if accepted { "accepted".into() } else { "rejected".into() }),
+                    accepted: accepted && differs,
+                    detail: json!({"slot": slot, "where": wname, "challenges_differ_from_native": differs}),
+                },
+                Err(_) => Scenario { id, properties: &[], what: "", honest: "panic while constructing the scenario".into(), forged: None, accepted: false, detail: json!({}) },
+            });
+        }
+    }
     let fs: Vec<(&str, fn() -> Scenario)> = vec![
         ("non-boolean-bits", s_nonboolean_bits),
         ("bits-of-x-plus-p:n=31", || s_bits_of_x_plus_p(31, 4)),
